@@ -239,6 +239,11 @@ def check(ctx: Ctx):
     from . import c03 as _c03
 
     _c03._guarded(ctx, "R15.8", _c15.check_param_aliasing)
+    # which labels "occur in the arrays" (and must be covered by a group) is what the label enumeration
+    # helpers say: they must report every non-zero value present, negative ones included (R09.6)
+    from .labelenum import check_label_enumeration as _cle
+
+    _c03._guarded(ctx, "R09.6", _cle)
 
 
 _E = "panoptica/panoptica_evaluator.py"
